@@ -37,7 +37,7 @@ func main() {
 	switch os.Args[1] {
 	case "check":
 		fs.Parse(os.Args[4:])
-		opt := options{workers: *workers, solver: *solver, timeoutMs: *timeout, samplesPer: 2, budgetS: 600}
+		opt := options{workers: *workers, solver: *solver, timeoutMs: *timeout, samplesPer: 2, budgetS: 1800}
 		if os.Args[3] == "thorough" {
 			opt.budgetS = 3 * 3600
 		}
